@@ -10,7 +10,7 @@ from anyio.lowlevel import checkpoint
 
 from ..explore import E1Check
 
-MODES = ("normal", "exc", "cancel", "tdraise", "tdnew")
+MODES = ("normal", "exc", "cancel", "tdraise", "tdnew", "precancel")  # precancel: a cancellation is already pending when the block is entered
 SHAPES = ("()", "()()", "(())")
 SPAWNS = ("tg", "service", "factory", "component")
 EXTRA_SPAWNS = ("service-outer", "factory-outer", "component-nested")
@@ -237,6 +237,8 @@ class C12(E1Check):
                 fails.append(("parent", f"task {t}: Context() created at {path} has parent {_d(ctx.parent)}, expected {_d(new_parent)}"))
             try:
                 with anyio.CancelScope() as scope:
+                    if mode == "precancel":
+                        scope.cancel()
                     async with ctx:
                         stack.append(ctx)
                         try:
@@ -284,9 +286,23 @@ class C12(E1Check):
                 fails.append(("inherit", f"task {t} ({spec['spawn']}): {msg}"))
             stack = [bottom]
             if spec["spawn"] == "tg-outlive":
-                # the task outlives the contexts it was spawned in: what it inherited stays its current context, closed or not
+                # the task outlives the contexts it was spawned in: what it inherited stays its current context, closed or not -
+                # also when the task itself is the only thing that still refers to it (the harness keeps a weak reference only)
+                import gc
+                import weakref
+
+                bref = weakref.ref(bottom)
+                stack[0] = None
+                del bottom, validate
                 await all_left.wait()
-                check(t, stack, "after the contexts it was spawned in have been left")
+                gc.collect()
+                c0 = cur()
+                if c0 is None or bref() is not c0:
+                    fails.append(("current", f"task {t} after the contexts it was spawned in have been left (and nothing else refers to them): "
+                                             f"current_context() is {_d(c0)}, it inherited {names.get(id(bref()), 'a context that is gone') if bref() else 'a context that has been freed'}"))
+                stack[0] = c0
+                bottom = c0
+                log("chk", t, "outlive", c0 is not None)
             if program.get("noise") and bottom is not None:
                 # also outside any block of its own: inside prepare() the current context is a ComponentContext that forwards lookups
                 for o in outer:
